@@ -272,6 +272,11 @@ def _units_and_support(db, rep):
                           'it is not passed to a function that applies its translator to RSConcept::convention, unless the convention translated with the plain map is stored afterwards', 1)
     _marking_translator(db, r11)
     _raw_text_minimal(db, rep)
+    r14 = rep.rule('r14', 'TRANSLATE-EVERYONE: after an equation every constituent is translated - conventions are free text and sit in no dependency graph, so a translation restricted to the dependants found through the graphs misses their mentions', 1)
+    _translate_everyone(db, r14)
+    r13 = rep.rule('r13', 'DUPLICATES-REWRITTEN (shared with C12 r8): duplicate elimination, interpreted, rewrites every mention of an erased duplicate to its survivor and renames nothing else', 1)
+    from rules import C12 as _C12
+    _C12.duplicates_evaluated(db, r13)
     r9 = rep.rule('r9', 'WHOLE-IDENTIFIER: names are located in expression texts only through the lexer (TranslateRS / MathLexer tokens); no function of the schema layers searches a text for a name with std::string::find and then edits the text at the position found (F1 is a substring of F10)', 1)
     _no_substring_search(db, r9)
     r8 = rep.rule('r8', 'TRANSLATE-ONCE: a copied constituent has the names in its texts rewritten exactly once by the complete old->new map (a single-item inserter already renames the copy\'s own alias; a later complete translation requires every text to be stored again from the source)', 4)
@@ -547,3 +552,30 @@ def _raw_text_minimal(db, rep):
         r12.violation('TranslateRaw', '%s:%d' % (tr.file, tr.line), bad)
     else:
         r12.ok('TranslateRaw', '%d (text, map) pairs over %d reference spellings' % (cases, len(refs)), '%s:%d' % (tr.file, tr.line))
+
+
+def _translate_everyone(db, rule):
+    """RSEquationProcessor::UpdateExpressions: the translation of the removed names is applied by a loop over a complete order of the schema
+    (a topological order, the list, the core) and unconditionally in its body, or by TranslateAll."""
+    from engine.cfgq import dominating_guards
+    f = db.fn('ccl::ops::RSEquationProcessor::UpdateExpressions', required=False)
+    if f is None or not f.has_cfg():
+        rule.broken('anchor vanished: RSEquationProcessor::UpdateExpressions')
+        return
+    tr = [c for c in f.calls() if (c.get('cs') or '').split('::')[-1] in ('Translate', 'TranslateAll') and (c.get('cs') or '').startswith('ccl::semantic::')]
+    if not tr:
+        rule.violation('UpdateExpressions', '%s:%d' % (f.file, f.line), 'the names removed by the equation are not translated at all')
+        return
+    FULL = ('InverseTopologicalOrder', 'TopologicalOrder', 'List', 'Core')
+    for c in tr:
+        if (c.get('cs') or '').endswith('TranslateAll'):
+            rule.ok('UpdateExpressions', 'TranslateAll', f.loc(c))
+            continue
+        loop = next((a for a in f.ancestors(c) if a['k'] == 'CXXForRangeStmt'), None)
+        full = loop is not None and any((x.get('cs') or '').split('::')[-1] in FULL for x in f.calls(f.stmts[loop['range']]))
+        guarded = loop is not None and any(a['k'] in ('IfStmt', 'ConditionalOperator', 'SwitchStmt') and any(y is a for y in f.walk(f.stmts[loop['body']])) for a in f.ancestors(c))
+        if full and not guarded:
+            rule.ok('UpdateExpressions', 'every constituent of a complete order is translated', f.loc(c))
+        else:
+            rule.violation('UpdateExpressions', f.loc(c), '`%s` is applied %s: a constituent that mentions a removed name only in its convention (free text, in no graph) keeps the name of a constituent that no longer exists' % (
+                (c.get('txt') or '')[:50], 'under a condition inside the loop' if guarded else 'to a selection instead of a complete order of the schema'))
